@@ -22,6 +22,12 @@ func vElemOf(v *big.Int) *Element {
 	return e
 }
 
+// vJunk is a receiver that already holds an unrelated non-zero value: results must not depend on it.
+func vJunk() *Element {
+	j, _ := new(big.Int).SetString("6a09e667f3bcc908b2fb1366ea957d3e3adec17512775099da2f590b0667322a", 16)
+	return vElemOf(j)
+}
+
 func vValue(e *Element) *big.Int { return new(big.Int).SetBytes(e.Bytes()) }
 
 func TestVerifBattery(t *testing.T) {
@@ -80,7 +86,7 @@ func TestVerifBattery(t *testing.T) {
 		}
 		// values whose MONTGOMERY limbs are sparse (words with zero halves, single non-zero limbs)
 		Rinv := new(big.Int).ModInverse(new(big.Int).Lsh(one, 256), vM)
-		for _, l := range [][4]uint64{{0, 0, 0, 1}, {0, 0, 0, 0xdeadbeef}, {1 << 32, 0, 0, 0}, {0, 1 << 32, 0, 5 << 32}, {0x1000003d1, 0, 0, 7}, {0, 0, 1, 0}, {^uint64(0), 0, 0, 0}, {0, 0, 0, 1 << 63}} {
+		for _, l := range [][4]uint64{{1, 0, 0, 0}, {2, 0, 0, 0}, {0x3d1, 0, 0, 0}, {0, 0, 0, 1}, {0, 0, 0, 0xdeadbeef}, {1 << 32, 0, 0, 0}, {0, 1 << 32, 0, 5 << 32}, {0x1000003d1, 0, 0, 7}, {0, 0, 1, 0}, {^uint64(0), 0, 0, 0}, {0, 0, 0, 1 << 63}} {
 			vals = append(vals, new(big.Int).Mod(new(big.Int).Mul(vValOf(l), Rinv), vM))
 		}
 		canon := func(what string, e *Element) {
@@ -99,7 +105,7 @@ func TestVerifBattery(t *testing.T) {
 			if ea.Sgn0() != uint64(a.Bit(0)) {
 				bad("Sgn0(%x) = %d", a, ea.Sgn0())
 			}
-			inv := New().Invert(*ea)
+			inv := vJunk().Invert(*ea)
 			want := new(big.Int).ModInverse(a, vM)
 			if want == nil {
 				want = big.NewInt(0)
@@ -107,7 +113,7 @@ func TestVerifBattery(t *testing.T) {
 			if vValue(inv).Cmp(want) != 0 {
 				bad("Invert(%x) = %x want %x", a, vValue(inv), want)
 			}
-			ng := New().Negate(ea)
+			ng := vJunk().Negate(ea)
 			if w := new(big.Int).Mod(new(big.Int).Neg(a), vM); vValue(ng).Cmp(w) != 0 {
 				bad("Negate(%x)", a)
 			}
@@ -116,7 +122,7 @@ func TestVerifBattery(t *testing.T) {
 				bad("IsZero/Equals(Negate(%x)) inconsistent with the value", a)
 			}
 			canon("Invert", inv)
-			if w := new(big.Int).Mod(new(big.Int).Mul(a, a), vM); vValue(New().Square(ea)).Cmp(w) != 0 {
+			if w := new(big.Int).Mod(new(big.Int).Mul(a, a), vM); vValue(vJunk().Square(ea)).Cmp(w) != 0 {
 				bad("Square(%x)", a)
 			}
 			for _, b := range vals {
@@ -128,13 +134,13 @@ func TestVerifBattery(t *testing.T) {
 					}
 					canon(name, got)
 				}
-				chk("Add", New().Add(ea, eb), new(big.Int).Add(a, b))
-				chk("Subtract", New().Subtract(ea, eb), new(big.Int).Sub(a, b))
-				chk("Multiply", New().Multiply(ea, eb), new(big.Int).Mul(a, b))
+				chk("Add", vJunk().Add(ea, eb), new(big.Int).Add(a, b))
+				chk("Subtract", vJunk().Subtract(ea, eb), new(big.Int).Sub(a, b))
+				chk("Multiply", vJunk().Multiply(ea, eb), new(big.Int).Mul(a, b))
 				if (ea.Equals(eb) == 1) != (a.Cmp(b) == 0) {
 					bad("Equals(%x,%x)", a, b)
 				}
-				if vValue(New().CMove(0, ea, eb)).Cmp(a) != 0 || vValue(New().CMove(1, ea, eb)).Cmp(b) != 0 {
+				if vValue(vJunk().CMove(0, ea, eb)).Cmp(a) != 0 || vValue(vJunk().CMove(1, ea, eb)).Cmp(b) != 0 {
 					bad("CMove(%x,%x)", a, b)
 				}
 				if b.Sign() != 0 {
@@ -146,12 +152,12 @@ func TestVerifBattery(t *testing.T) {
 							recv = v2
 						}
 						ya, oka := recv.SqrtRatio(u2, v2)
-						yf, okf := New().SqrtRatio(vElemOf(a), vElemOf(b))
+						yf, okf := vJunk().SqrtRatio(vElemOf(a), vElemOf(b))
 						if oka != okf || vValue(ya).Cmp(vValue(yf)) != 0 {
 							bad("AliasedSqrtRatio(%x,%x): receiver aliasing operand %d differs from the unaliased call", a, b, alias)
 						}
 					}
-					y, ok := New().SqrtRatio(ea, eb)
+					y, ok := vJunk().SqrtRatio(ea, eb)
 					ratio := new(big.Int).Mul(a, new(big.Int).ModInverse(b, vM))
 					ratio.Mod(ratio, vM)
 					isSq := ratio.Sign() == 0 || big.Jacobi(ratio, vM) == 1
@@ -185,7 +191,7 @@ func TestVerifBattery(t *testing.T) {
 				new(big.Int).Sub(vM, one).FillBytes(in[:])
 			}
 			v := new(big.Int).SetBytes(in[:])
-			e, red := New().FromBytesWithReduce(in)
+			e, red := vJunk().FromBytesWithReduce(in)
 			if (red == 1) != (v.Cmp(vM) < 0) {
 				bad("FromBytesWithReduce(%x) flag=%d", in, red)
 			}
@@ -205,7 +211,7 @@ func TestVerifBattery(t *testing.T) {
 				}
 			}
 			wv := new(big.Int).Mod(new(big.Int).SetBytes(w[:]), vM)
-			if vValue(New().HashToFieldElement(w)).Cmp(wv) != 0 {
+			if vValue(vJunk().HashToFieldElement(w)).Cmp(wv) != 0 {
 				bad("HashToFieldElement(%x)", w)
 			}
 		}
